@@ -32,7 +32,7 @@ RULE = ('each run = role-built repository (0-4 categories x 0-4 packages with eb
         'format, sort) + create, then 0-3 role-aware edits + update, via CLI or library, with permuted directory '
         'listings; non-trivial = an ebuild profile on a repository with at least one package or standard directory; '
         'distinct = distinct seam event-log digest')
-PLAN = {'quick': {'n': 900, 'budget_s': 55, 'block': 12},
+PLAN = {'quick': {'n': 3000, 'budget_s': 90, 'block': 12},
         'thorough': {'n': 30000, 'budget_s': 1200, 'block': 100}}
 ASSUMPTIONS = ['expected placement/typing comes from generator roles (M-policy); empty categories without metadata.xml and packages without ebuilds are not generated (statement silent)']
 
